@@ -69,6 +69,14 @@ _MONTH_FULL = list(_MONTH_ABBREV_TO_FULL.values())
 _LOWERCASE_FULL = list(m.lower() for m in _MONTH_FULL)
 
 
+def _unknown_month_message(v: int) -> str:
+    try:
+        return f"month-field unchanged - unknown month {v}"
+    except ValueError:
+        # Python refuses to convert very large ints to str (int max str digits)
+        return "month-field unchanged - unknown month (number too large to display)"
+
+
 def _int_if_digit_string(v):
     """Returns the int value of a digit-string, and any other value unchanged."""
     if isinstance(v, str) and v.isdigit():
@@ -104,7 +112,7 @@ class MonthLongStringMiddleware(_MonthInterpolator):
             if v < 1 or v > 12:
                 return (
                     month_field.value,
-                    f"month-field unchanged - unknown month {v}",
+                    _unknown_month_message(v),
                 )  # Nothing we can do here
             return _MONTH_FULL[v - 1], "transformed int-month to str-month"
         elif isinstance(v, str):
@@ -146,7 +154,7 @@ class MonthAbbreviationMiddleware(_MonthInterpolator):
         if isinstance(v, int):
             if v < 1 or v > 12:
                 # Nothing we can do here
-                return month_field.value, f"month-field unchanged - unknown month {v}"
+                return month_field.value, _unknown_month_message(v)
             return _MONTH_ABBREV[v - 1], "transformed int-month to abbreviated month"
         elif isinstance(v, str):
             v_lower = v.lower()
